@@ -27,11 +27,11 @@ VEC_NEW = "alloc::vec::Vec::<T>::new"
 VEC_CLEAR = "alloc::vec::Vec::<T, A>::clear"
 VEC_POP = "alloc::vec::Vec::<T, A>::pop"
 VEC_REVERSE = "core::slice::<impl [T]>::reverse"
-INDEX = "core::ops::Index::index"
+INDEX = "core::ops::index::Index::index"
 SLICE_LEN = "core::slice::<impl [T]>::len"
 SLICE_IS_EMPTY = "core::slice::<impl [T]>::is_empty"
-DEREF = "core::ops::Deref::deref"
-DEREF_MUT = "core::ops::DerefMut::deref_mut"
+DEREF = "core::ops::deref::Deref::deref"
+DEREF_MUT = "core::ops::deref::DerefMut::deref_mut"
 
 READ_ONLY = {VEC_LEN, VEC_IS_EMPTY, INDEX, SLICE_LEN, SLICE_IS_EMPTY, DEREF,
              "core::clone::Clone::clone", "core::cmp::PartialEq::eq", "core::cmp::PartialEq::ne",
@@ -209,7 +209,7 @@ class VecLen:
             a = self._sym_of_operand(st, rv["a"])
             if a and a[0] == "cmp":
                 st.sym[l] = ("cmp", negate(a[1]), a[2], a[3])
-        elif k == "aggr" and rv["kind"] == "adt" and rv["adt"] == "core::ops::Range":
+        elif k == "aggr" and rv["kind"] == "adt" and rv["adt"] == "core::ops::range::Range":
             ops = [self._sym_of_operand(st, o) for o in rv["ops"]]
             st.sym[l] = ("range", ops[0], ops[1])
 
@@ -460,20 +460,20 @@ def tail_drains(fn):
         if not (idx_t[0] == "field" and idx_t[2] == "0" and idx_t[1][0] == "variant" and idx_t[1][2] == "Some"):
             continue
         nxt = idx_t[1][1]
-        if not is_call(nxt, "core::iter::Iterator::next"):
+        if not is_call(nxt, "core::iter::traits::iterator::Iterator::next"):
             continue
         it = nxt[2][0]
         if it[0] != "ref":
             continue
         itv = it[1]
         # (2)
-        if not is_call(itv, "core::iter::IntoIterator::into_iter"):
+        if not is_call(itv, "core::iter::traits::collect::IntoIterator::into_iter"):
             continue
         rev = itv[2][0]
-        if not is_call(rev, "core::iter::Iterator::rev"):
+        if not is_call(rev, "core::iter::traits::iterator::Iterator::rev"):
             continue
         rng = rev[2][0]
-        if not (rng[0] == "aggr" and rng[1] == "core::ops::Range"):
+        if not (rng[0] == "aggr" and rng[1] == "core::ops::range::Range"):
             continue
         f = dict(rng[3])
         start, end = f.get("start"), f.get("end")
